@@ -253,7 +253,7 @@ def dbLine (st : DBRun) (lineNo : Nat) (line : String) : Except String (DBRun ×
       .ok ({ st with fails := st.fails + 1 },
            [s!"PROPFAIL C06 record_wellformed hist={st.hist} line={lineNo} {probe} after a short write a line of the log is not one whole record"])
   | "stuck" :: rest =>
-    -- the harness made no progress for a minute and a half: a call into the code under test has
+    -- the harness made no progress for three minutes: a call into the code under test has
     -- not returned and never will.  No statement admits a call that is never answered.
     let fs := fields rest
     let note := ((lookup fs "note").bind unhexStr).getD ""
